@@ -66,6 +66,8 @@ structure SState where
   defaults : List (Nat × Str) := []      -- instance ↦ the slot name flagged `default` seen first
   nextRef : Nat := 0
   cap : List (Str × Closure) := []       -- fills found while reading a component body
+  path : List Str := []                  -- names of the instances being rendered, outermost first
+  paths : List (List Str) := []          -- the path of every instance (the rendered structure)
 deriving Inhabited
 
 abbrev S := StateT SState (Except Err)
@@ -263,8 +265,12 @@ mutual
         let lexical := only || env.isolated
         let base : Ctx := if lexical then [[]] else e.vars
         let vars := base ++ [data] ++ [[(compVarsKey, compVarsOf fills)]]
+        let saved := (← get).path
+        modify (fun s => { s with path := saved ++ [name], paths := s.paths ++ [saved ++ [name]] })
         let out ← sNodes env n d.template (.mk vars e.prov (some (.mk id fills base.length lexical)) [])
+        modify (fun s => { s with path := saved })
         pure (.marker name id :: addRootAttrs [idAttr id] out)
+      | _ => throw (.runtime "composition tag: flatten the family first")
 end
 
 /-- `Component.render(context, kwargs, slots)` on the specification side -/
